@@ -612,6 +612,49 @@ def oracle_api(run):
                         f"hash {h_ab} (first fit {h_a}); a fresh curve fitted "
                         f"with {vb} has {h_b}", payload={"kind": "rerun"},
                         theorem="C12_key_effect / C12_sensitive_*")
+    # a NESTED setting changed in place in the caller's own object and passed
+    # again: the stored hash is that of the new value (= a curve that got the
+    # same sequence of values in fresh objects)
+    for label, mk_opts, edit in [
+        ("preprocessing_options",
+         lambda: {"correct_tip_offset": {"method": "deviation_from_baseline"}},
+         lambda o: o["correct_tip_offset"].__setitem__(
+             "method", "fit_constant_line")),
+    ]:
+        run.case({"sensitivity": "nested-in-place:" + label},
+                 kind="api-sensitivity")
+        k2 = "nested-in-place:" + label
+        try:
+            with warnings.catch_warnings():
+                warnings.simplefilter("ignore")
+                pipe = ["compute_tip_position", "correct_force_offset",
+                        "correct_tip_offset"]
+                hs = []
+                for shared in (True, False):
+                    ic = curves.make_indentation(cols)
+                    o1 = mk_opts()
+                    kw = dict(b)
+                    kw.pop("method_kws", None)
+                    kw.update(preprocessing=list(pipe),
+                              preprocessing_options=o1)
+                    ic.fit_model(**kw)
+                    h1 = ic.fit_properties.get("hash")
+                    edit(o1)
+                    o2 = o1 if shared else copy.deepcopy(o1)
+                    kw["preprocessing_options"] = o2
+                    ic.fit_model(**kw)
+                    hs.append((h1, ic.fit_properties.get("hash")))
+        except BaseException as e:
+            run.failing(SITE_HASH, k2 + "|raised", f"raised "
+                        f"{type(e).__name__}: {e}", payload={"kind": "rerun"})
+            continue
+        (a1, a2), (b1, b2) = hs
+        if a2 != b2 or a2 == a1:
+            run.failing(SITE_HASH, k2, f"{label}: nested value changed in "
+                        f"place and passed again -> stored hash {a2} (before "
+                        f"{a1}); with fresh objects per call {b2}",
+                        payload={"kind": "rerun"},
+                        theorem="C12_key_effect / C12_sensitive_*")
     return h0
 
 
